@@ -116,6 +116,53 @@ class Provenance:
                 else tags
         if isinstance(e, ast.Call):
             nm = call_name(e) or ''
+            if nm == 'os.path.join' and len(e.args) > 1:
+                # a later component that can be an absolute path replaces
+                # everything before it: a user-supplied path there IS the
+                # result; a component that starts with a constant other
+                # than "/" is a fragment and only extends the first one
+                def fragment(a):
+                    if isinstance(a, ast.Constant) and isinstance(
+                            a.value, str):
+                        return not a.value.startswith('/')
+                    if isinstance(a, ast.JoinedStr) and a.values and \
+                            isinstance(a.values[0], ast.Constant):
+                        v0 = str(a.values[0].value)
+                        return bool(v0) and not v0.startswith('/')
+                    if isinstance(a, ast.BinOp) and isinstance(
+                            a.op, ast.Add):
+                        return fragment(a.left)
+                    if isinstance(a, ast.Call) and isinstance(
+                            a.func, ast.Attribute) and \
+                            a.func.attr == 'format' and isinstance(
+                                a.func.value, ast.Constant):
+                        v0 = str(a.func.value.value)
+                        return bool(v0) and v0[0] not in '/{'
+                    if isinstance(a, ast.Call) and (call_name(a) or '') in (
+                            'os.path.basename', 'str'):
+                        return (call_name(a) == 'os.path.basename')
+                    return False
+
+                tags = set(self.of(mod, func, e.args[0], depth))
+                for a in e.args[1:]:
+                    if fragment(a):
+                        continue
+                    ta = self.of(mod, func, a, depth)
+                    user = {t for t in ta if 'INFILE' in t or 'OUTFILE' in t
+                            or t.startswith('OPT:')}
+                    if user:
+                        # may be absolute: the result is that path
+                        return {t.replace('DERIVED(', '').rstrip(')')
+                                if t.startswith('DERIVED(') else t
+                                for t in user}
+                    tags |= ta
+                base = {t for t in tags if t in ('OUTFILE', 'INFILE')}
+                if base:
+                    return {f'DERIVED({t})' for t in base}
+                if any(t == 'TMP' for t in tags):
+                    return {'TMP'}
+                der = {t for t in tags if t.startswith('DERIVED(')}
+                return der or tags
             if nm in ('os.path.join', 'os.path.dirname', 'os.path.abspath',
                       'os.path.realpath', 'str', 'os.fspath'):
                 tags = set()
@@ -130,6 +177,23 @@ class Provenance:
                 if der:
                     return der
                 return tags
+            if nm.endswith('get_tmp_filename') and depth < 3:
+                # summary of the function: provenance of what it returns
+                try:
+                    tm = self.prog.mod('tmpfiles')
+                    tf = tm.func('get_tmp_filename')
+                except Exception:
+                    tm = tf = None
+                if tf is not None:
+                    acc = set()
+                    for r_ in ast.walk(tf):
+                        if isinstance(r_, ast.Return) and \
+                                r_.value is not None:
+                            acc |= self.of(tm, tf, r_.value, depth + 1)
+                    bad = {t for t in acc if 'INFILE' in t or 'OUTFILE' in t}
+                    if bad:
+                        return bad
+                return {'TMP'}
             if nm.endswith('get_tmp_filename') or nm.startswith('tempfile.'):
                 d = kw(e, 'dir')
                 if d is not None:
@@ -183,6 +247,23 @@ class Provenance:
             # module global
             r = self.prog.resolve_name(mod, e.id)
             if r and r[0] == 'global':
+                # assigned by functions that declare it global
+                tags = set()
+                if depth < 3:
+                    for q_, g_ in mod.funcs.items():
+                        decl = any(isinstance(x, ast.Global)
+                                   and e.id in x.names
+                                   for x in ast.walk(g_))
+                        if not decl:
+                            continue
+                        for st in ast.walk(g_):
+                            if isinstance(st, ast.Assign) and any(
+                                    isinstance(t, ast.Name) and t.id == e.id
+                                    for t in st.targets):
+                                tags |= self.of(mod, g_, st.value, depth + 1)
+                user = {t for t in tags if 'INFILE' in t or 'OUTFILE' in t}
+                if user:
+                    return user
                 return {'GLOBAL:' + e.id}
             return {'UNKNOWN-LOCAL'}
         return {'UNKNOWN'}
